@@ -5,6 +5,7 @@ CRATE = "e_sieve"
 DRIVER = "drv_sieve"
 DRIVER_MODULE = "Driver.Sieve"
 PROPS = "RlibModel.Props.C13"
+PROPS_SRC = "RlibModel.Props.C13Src"     # second tie: `src_*` theorems about the definitions regenerated from the source text
 PROFILES = ["release"]
 SHRINK_SEP = None
 RULE = ("cases: `tab N` for EVERY limit N in [0,3000] (all three tables read through min_prime/is_prime/primes for every n <= N, "
@@ -40,3 +41,44 @@ def nontrivial(case, rec):
         return int(toks[1]) >= 2
     except (ValueError, IndexError):
         return False
+
+
+# ---- second tie: Sieve::new and the accessors regenerated from the source text on every run (tools/rs2lean_typed.py) ----------
+TRANSLATED = ["new", "min_prime", "is_prime", "primes"]
+NOT_TRANSLATED = ["PrimeIter (struct with a reference field and a lifetime parameter)", "PrimeIter::next (Option<(i32, i32)>, tuple value)",
+                  "Sieve::factorize (builds a PrimeIter)"]
+ASSUMPTIONS.append(
+    "second tie: sieve/minPrime/isPrime/primesOf of the hand-written model are proved equal (theorems src_*_eq_model, through the embedding "
+    "Nat -> Int of the mnp and primes tables) to the definitions that tools/rs2lean_typed.py regenerates from the text of "
+    "rlib/sieve/src/lib.rs on every run (Generated/SieveSrc.lean: Vec = Array with checked indexing, `as i32` / `as usize` = wrap, "
+    "`n + 1` and `primes[j] as usize * i` = checked usize operations, the nested `for` loops with `break` and the short-circuit `||` on fuel); "
+    "hypotheses: N + 1 < 2^31 (the casts are the identity there; the named residue of C13), 2N + 1 <= fuel; trusted there: the translator and "
+    "its reading of Vec (Generated/VecPrelude.lean); NOT covered by the second tie (differential tie only): PrimeIter::next and factorize")
+MANIFEST["technique"] += " + source-to-Lean translation of rlib/sieve/src/lib.rs (Sieve::new and the accessors) regenerated and proved equal to the model on every run"
+
+
+def extract(repo):
+    """Translate <repo>/rlib/sieve/src/lib.rs (`impl Sieve`: new, min_prime, is_prime, primes) into Generated/SieveSrc.lean (written only
+    when its text changes).  A construct outside the translator's subset is a broken correspondence; the generated file then has no
+    definitions, so the src_* theorems stop compiling as well (never a stale file left in place)."""
+    import os
+    import sys
+    verif = os.path.dirname(os.path.dirname(os.path.abspath(__file__)))
+    tools = os.path.join(verif, "tools")
+    if tools not in sys.path:
+        sys.path.insert(0, tools)
+    import rs2lean_typed
+    rel = "rlib/sieve/src/lib.rs"
+    out = os.path.join(verif, "lean", "RlibModel", "Generated", "SieveSrc.lean")
+    info, problems = rs2lean_typed.run(os.path.join(repo, rel), out, "Rlib.SieveSrc", rel, ID, "Sieve", TRANSLATED)
+    params = {"translated_from": rel, "translated_functions": info.get("functions", []), "translated_loops": info.get("loops", []),
+              "not_translated": NOT_TRANSLATED,
+              "generated_file": "lean/RlibModel/Generated/SieveSrc.lean", "generated_file_rewritten": info.get("rewritten", False)}
+    return params, problems
+
+
+def extra(ctx):
+    """Plain-words verdict on the second tie when the src_* proofs did not build (the generic check only names the file)."""
+    import rs2lean
+    ok = bool(ctx["params"].get("translated_functions"))
+    return rs2lean.tie_findings(["RlibModel/Generated/SieveSrc.lean"], "RlibModel/Lemmas/SieveSrc.lean", ok, "rlib/sieve/src/lib.rs")
